@@ -6,6 +6,8 @@ for f in sorted(glob.glob('/verif/seeded/*/meta.json')):
     m=json.load(open(f))
     caught='; '.join(f"**{k}**: `{v}`" if len(v)<140 else f"**{k}**: {v}" for k,v in m['caught_by'].items())
     extra=(' *Machinery strengthened:* '+m['machinery_strengthened']) if 'machinery_strengthened' in m else ''
+    if 'not_reported' in m:
+        caught='**not reported**: '+m['not_reported']
     if 'obsolete' in m:
         extra+=' *No longer a break:* '+m['obsolete']
     rows.append(f"| {m['seed_id']} | {m['breaks_property']} | {m['change']} | {m['needs_to_manifest']} | {caught}.{extra} |")
